@@ -52,8 +52,9 @@ pub fn spec(property: &str, tier: &str) -> Option<CheckSpec> {
 				"AutomatedTesting chain parameters (all five header versions within 15 blocks)",
 				"maximum total difficulty is unique by construction (ties re-drawn)",
 				"orphans stay far below the pool capacity of 200",
+				"one world in four has a 56-66 block trunk with forks leaving it at heights 1-4 (side branches delivered after the trunk in two of three schedules)",
 			],
-			vec!["reorg", "orphaned", "fork_block"],
+			vec!["reorg", "orphaned", "fork_block", "block_accepted_50_below_head"],
 		)),
 		"C02" => Some(s(
 			"chainsim",
@@ -261,6 +262,16 @@ fn world_cfg_for(property: &str, rng: &mut SimRng, quick: bool) -> WorldCfg {
 			cfg.free_difficulty = rng.chance(1, 2);
 			cfg.tx_pct = rng.range(20, 60);
 			cfg.branches = rng.range(1, 4) as usize;
+			if rng.chance(1, 4) {
+				// a fork that leaves the trunk more than 50 blocks below its tip (the distance at which
+				// the "old block" shortcut for already stored blocks starts to apply)
+				cfg.free_difficulty = true;
+				cfg.trunk = rng.range(56, 66);
+				cfg.tx_pct = 5;
+				cfg.branches = rng.range(1, 2) as usize;
+				cfg.max_branch_depth = rng.range(2, 4);
+				cfg.fork_deep = true;
+			}
 		}
 		"C02" => {
 			if rng.chance(1, 4) {
@@ -277,6 +288,8 @@ fn world_cfg_for(property: &str, rng: &mut SimRng, quick: bool) -> WorldCfg {
 				cfg.tx_pct = 90;
 				cfg.max_txs = 3;
 				cfg.branches = rng.range(2, 4) as usize;
+				// competing blocks of identical shape that spend different outputs
+				cfg.uniform_txs = rng.chance(1, 3);
 			}
 		}
 		"C01" => {
@@ -300,6 +313,7 @@ fn world_cfg_for(property: &str, rng: &mut SimRng, quick: bool) -> WorldCfg {
 		"C06" => {
 			cfg.tx_pct = 80;
 			cfg.nrd = rng.chance(1, 2);
+			cfg.uniform_txs = rng.chance(1, 3);
 		}
 		"C15" => {
 			cfg.tx_pct = 90;
@@ -507,6 +521,10 @@ pub fn chainsim_case(property: &str, tier: &str, seed: u64, case: u64) -> CaseRe
 		if uses_twin(property) {
 			scfg.n_nodes = 1;
 		}
+		if world.cfg.fork_deep {
+			scfg.side_branches_last = rr.chance(2, 3);
+			scfg.n_nodes = scfg.n_nodes.min(2);
+		}
 		if property == "C08" || (property == "C02" && world.cfg.trunk >= 85) {
 			scfg.n_nodes = 1;
 			scfg.headers_first = true;
@@ -676,6 +694,30 @@ pub fn check_tx_matrix(world: &mut World) -> Result<u64, (String, String)> {
 			shapes.push(("height-locked".into(), t));
 		}
 	}
+	// fee with a priority shift: the shift is a mempool hint only, the balance uses the full fee.
+	// The honest one must validate; one that pays only `fee >> shift` while declaring `fee` must not.
+	let mut extra_bad: Vec<(String, Transaction)> = vec![];
+	for _ in 0..2 {
+		if let Some(x) = pool.pop() {
+			let shift = world.rng.range(1, 8);
+			let fee = (grin_core::libtx::tx_fee(1, 1, 1) << shift) | 1;
+			if x.value > fee + 1 {
+				let ff = FeeFields::new(shift, fee).unwrap();
+				if shapes.iter().all(|(n, _)| n != "fee-shifted") {
+					let (t, _) = world.wallet.build_tx(&[x.clone()], &[x.value - fee], None, KernelFeatures::Plain { fee: ff });
+					shapes.push(("fee-shifted".into(), t));
+				} else {
+					let (t, _) = world.wallet.build_tx(&[x.clone()], &[x.value - (fee >> shift)], None, KernelFeatures::Plain { fee: ff });
+					extra_bad.push(("pays-only-shifted-fee".into(), t));
+				}
+			}
+		}
+	}
+	for (vname, t) in &extra_bad {
+		if t.validate(Weighting::AsTransaction).is_ok() {
+			return Err((format!("corrupted-tx-accepted:{}", vname), format!("a transaction that declares a fee with a priority shift but {} passes Transaction::validate", vname)));
+		}
+	}
 	// multi-kernel aggregate
 	if shapes.len() >= 2 {
 		if let Ok(a) = transaction::aggregate(&[shapes[0].1.clone(), shapes[shapes.len() - 1].1.clone()]) {
@@ -703,7 +745,7 @@ pub fn check_tx_matrix(world: &mut World) -> Result<u64, (String, String)> {
 			let mut t = tx.clone();
 			let f = t.body.kernels[k].features;
 			let extra = 1 + world.rng.below(1000);
-			let bump = |ff: FeeFields| FeeFields::new(0, ff.fee() + extra).unwrap();
+			let bump = |ff: FeeFields| FeeFields::new(ff.fee_shift() as u64, ff.fee() + extra).unwrap();
 			t.body.kernels[k].features = match f {
 				KernelFeatures::Plain { fee } => KernelFeatures::Plain { fee: bump(fee) },
 				KernelFeatures::HeightLocked { fee, lock_height } => KernelFeatures::HeightLocked { fee: bump(fee), lock_height },
